@@ -825,7 +825,7 @@ COMPONENTS = {
              'reference = pristine fork of the worker and a companion interpreter under another PYTHONHASHSEED'],
 }
 TIERS = {
-    'quick': {'runs': 5500, 'wall_cap': 400},
+    'quick': {'runs': 4500, 'wall_cap': 400},
     'thorough': {'runs': 90000, 'wall_cap': 3600},
 }
 EXPECTED_PROBES = ['second-use-of-stateful-shared-parser', 'RecursionError-raised',
